@@ -163,6 +163,9 @@ func runC10(r *Run) {
 	checkReenter(r, re, m, k)
 	re.Done()
 
+	// ---- the agent side of "a closed error when the client is closed" (agent.go is one of C10's anchors)
+	r.Borrow("C13", map[string]string{"C13.close": "C10.agentclose", "C13.terminal": "C10.agentterminal"})
+
 	// ---- rollback in Start
 	rb := r.Rule("C10.rollback", "in Start every path from a successful registration to a return of a non-nil error passes the client delete (so a failed Start never leaves a live handler)", 1)
 	{
